@@ -33,6 +33,7 @@ def bases(tier):
         B.append(("std.encodeUTF8(%s)" % jval(s), [float(ord(c)) for c in s], "num", "encodeUTF8"))
         obj = "{%s}" % ", ".join("k%d: %d" % (i, 10 + i) for i in range(n))
         B.append(("std.objectValues(%s)" % obj, nums, "num", "objectValues"))
+        B.append(("std.map(function(kv) kv.value, std.objectKeysValues(%s))" % obj, nums, "num", "objectKeysValues"))
         B.append(("std.filter(function(x) x >= 10, std.range(5, %d))" % (9 + n), nums, "num", "filter"))
         B.append(("std.repeat([10], %d)" % n, [10.0] * n, "num", "repeat"))
     return B
@@ -252,6 +253,8 @@ def lazy_error_cases():
         ("std.makeArray(3, function(i) if i == 1 then error 'bomb' else i)", 2, 2.0),
         ("[if x == 1 then error 'bomb' else x for x in [0, 1, 2]]", 2, 2.0),
         ("std.objectValues({a: 1, b: error 'bomb', c: 3})", 2, 3.0),
+        ("std.map(function(kv) kv.value, std.objectKeysValues({a: 1, b: error 'bomb', c: 3}))", 2, 3.0),
+        ("std.map(function(kv) std.length(kv.key), std.objectKeysValues({a: 1, bb: error 'bomb', c: 3}))", 1, 2.0),
     ):
         out.append((src, idx, val))
     return out
